@@ -46,3 +46,19 @@ package diff
 
 //@ func diff.slice
 //@   pure
+
+// ---------------------------------------------------------------- C16: the search works on the current segment
+// compose may restart on the unconsumed remainders of the two sequences (recordSeq re-slices them and
+// updates m and n). Every probe of the edit graph uses the offset of the CURRENT segment, and the
+// diagonal probe the current length difference: values computed before a restart must not be reused.
+//@ struct diff.differ
+//@   stable m, n writers diff.diffSlice, (*diff.differ).recordSeq
+//@ func (*diff.differ).snake
+//@   modifies heap
+//@ func (*diff.differ).recordSeq
+//@   modifies heap
+//@ func (*diff.differ).compose
+//@   requires diff != nil
+//@   callsite snake: assert offset-of-the-current-segment: $4 == diff.m + 1
+//@   callsite snake@0: assert diagonal-of-the-current-segment: $1 == diff.n - diff.m
+//@   modifies heap
